@@ -16,7 +16,7 @@ import (
 	"verifharness/internal/gen"
 )
 
-// C13 — callbacks fire once per target, on the live object, in the documented order.
+// C13 - callbacks fire once per target, on the live object, in the documented order.
 //
 // Monitor: recording callbacks append (registration, target identity read
 // inside the callback) to a log and set a unique property on the object they
